@@ -233,8 +233,6 @@ int Symbols::lookup(const char *name, uint32_t *address)
 
 int Symbols::iterate(SymbolsIter *iter)
 {
-  MemoryPool *memory_pool = this->memory_pool;
-
   if (iter->end_flag == 1) { return -1; }
   if (iter->memory_pool == nullptr)
   {
@@ -242,8 +240,11 @@ int Symbols::iterate(SymbolsIter *iter)
     iter->ptr = 0;
   }
 
-  while (memory_pool != nullptr)
+  // iter->ptr is an offset into iter->memory_pool, so both move together.
+  while (iter->memory_pool != nullptr)
   {
+    MemoryPool *memory_pool = iter->memory_pool;
+
     if (iter->ptr < memory_pool->ptr)
     {
       Entry * entry = (Entry *)(memory_pool->buffer + iter->ptr);
@@ -258,7 +259,8 @@ int Symbols::iterate(SymbolsIter *iter)
       return 0;
     }
 
-    memory_pool = memory_pool->next;
+    iter->memory_pool = memory_pool->next;
+    iter->ptr = 0;
   }
 
   iter->end_flag = 1;
